@@ -215,10 +215,10 @@ func sceneQuery(o ReqOpts) {
 		chk("C17 C18", vf.And(err == nil, r != nil && r.Fees.Empty()), "no-earned-fees-for-a-stranger")
 	case 10: // params
 		r, err := k.Params(gctx, &types.QueryParamsRequest{})
-		chk("C17", vf.And(err == nil, r != nil && sameParams(r.Params, k.GetParams(ctx))), "params-are-the-stored-ones")
+		chk("C17", vf.And(err == nil, r != nil && sameParams(r.Params, vf.Params(ctx))), "params-are-the-stored-ones")
 		bz, lerr := legacy(ctx, []string{types.QueryParameters}, abci.RequestQuery{})
 		var lp types.Params
-		chk("C17", vf.All(lerr == nil, vf.FromAminoJSON(bz, &lp) == nil, sameParams(lp, k.GetParams(ctx))), "legacy-params-same")
+		chk("C17", vf.All(lerr == nil, vf.FromAminoJSON(bz, &lp) == nil, sameParams(lp, vf.Params(ctx))), "legacy-params-same")
 	case 11: // schemas
 		r, err := k.Schema(gctx, &types.QuerySchemaRequest{SchemaName: "Pricing"})
 		chk("C17", vf.And(err == nil, r != nil && r.Schema == types.PricingSchema), "pricing-schema")
